@@ -72,13 +72,9 @@ func (z *ZodLiteral[T, R]) Parse(input any, ctx ...*core.ParseContext) (R, error
 
 // StrictParse provides compile-time type safety by requiring exact type matching.
 func (z *ZodLiteral[T, R]) StrictParse(input R, ctx ...*core.ParseContext) (R, error) {
-	return engine.ParsePrimitiveStrict(
-		input,
-		&z.internals.ZodTypeInternals,
-		core.ZodTypeLiteral,
-		z.validateLiteral,
-		ctx...,
-	)
+	// StrictParse must answer exactly what Parse answers: the statically typed input is a valid
+	// Parse input, so run the one pipeline.
+	return z.Parse(input, ctx...)
 }
 
 // MustParse validates input and panics on error.
